@@ -1,5 +1,7 @@
 import DW.Props.C02
 import DW.Props.C03
+import DW.Props.C04
+import DW.Props.C12
 import DW.Props.C08
 import DW.Props.C09
 import DW.Props.C10
@@ -100,5 +102,44 @@ theorem C19_validated (c : Cfg) (hz : c.zod = true) (raw : RawItem) (hraw : RawO
   obtain ⟨hwf, hnu⟩ := validated_item_ok c raw hraw inp h dw hdw t ht (by simp [htr])
   rw [htr]
   exact ⟨_, rfl, rfl, C19_effect_zod c hz inp.item cx hwf hnu a ha⟩
+
+/-- The method body the generator emits for `PartialOrd` / `Ord` when `PartialOrd` does not delegate to `Ord`. -/
+theorem generateBody_ord (c : Cfg) (it : Item) (dw : DeriveWhere) (t : Trait) (ht : t = .partialOrd ∨ t = .ord)
+    (hns : (dw.shortcut && dw.contains .ord) = false) :
+    ∃ m, generateBody c it dw t = some m ∧ m.body = ordMethodBody c it dw t := by
+  rcases ht with rfl | rfl
+  · exact ⟨_, rfl, by simp [partialOrdSignature, hns, ordMethodBody, ordArmsFor]⟩
+  · exact ⟨_, rfl, by simp [ordMethodBody, ordArmsFor]⟩
+
+/-- C04, end to end: for every accepted item the generated `partial_cmp` / `cmp` (no delegation to `Ord`) computes
+the specified ordering — by discriminant value across variants, lexicographically over the non-skipped fields within
+one — in every configuration and for every discriminant strategy; the only facts assumed are rustc's (`ItemTiOK`:
+discriminant values, representation) and that the sibling `Clone` impl, when it is used to read the discriminant,
+returns its argument. -/
+theorem C04_validated (c : Cfg) (raw : RawItem) (hraw : RawOK raw) (inp : Input)
+    (h : Input.fromInput c raw = .ok inp) (dw : DeriveWhere) (hdw : dw ∈ inp.deriveWheres)
+    (t : DeriveTrait) (ht : t ∈ dw.traits) (htr : t.trait = .partialOrd ∨ t.trait = .ord)
+    (hns : (dw.shortcut && dw.contains .ord) = false) (cx : SemCtx α) (hti : ItemTiOK cx c inp.item)
+    (a b : Val α) (ha : WfVal inp.item a) (hb : WfVal inp.item b) (hca : CloneOK cx dw a) (hcb : CloneOK cx dw b) :
+    ∃ m, generateBody c inp.item dw t.trait = some m ∧ ∃ extra, OnlySelfClone extra ∧
+      runMethod cx m.body a (some b) = .ok (specOrdVal t.trait cx.ops cx.ti inp.item a b, extra) := by
+  obtain ⟨hwf, hnu⟩ := validated_item_ok c raw hraw inp h dw hdw t ht (by rcases htr with h' | h' <;> simp [h'])
+  have ty := typeable_of_validated c raw hraw inp h dw hdw t ht
+  obtain ⟨m, hm, hbody⟩ := generateBody_ord c inp.item dw t.trait htr hns
+  refine ⟨m, hm, ?_⟩
+  rw [hbody]
+  exact C04_ord_refines c inp.item dw t.trait htr hns cx hwf hnu hti
+    (fun ho => ⟨not_isIncomparable_marked _ (ty.ordNoInc ho).1, (ty.ordNoInc ho).2⟩) a b ha hb hca hcb
+
+/-- C12, end to end: no generated comparison of an accepted item executes undefined behaviour, gets stuck or
+panics — it returns a value — for all well-formed operands, in every configuration. -/
+theorem C12_validated (c : Cfg) (raw : RawItem) (hraw : RawOK raw) (inp : Input)
+    (h : Input.fromInput c raw = .ok inp) (dw : DeriveWhere) (hdw : dw ∈ inp.deriveWheres)
+    (t : DeriveTrait) (ht : t ∈ dw.traits) (htr : t.trait = .partialOrd ∨ t.trait = .ord)
+    (hns : (dw.shortcut && dw.contains .ord) = false) (cx : SemCtx α) (hti : ItemTiOK cx c inp.item)
+    (a b : Val α) (ha : WfVal inp.item a) (hb : WfVal inp.item b) (hca : CloneOK cx dw a) (hcb : CloneOK cx dw b) :
+    ∃ m, generateBody c inp.item dw t.trait = some m ∧ ∃ v l, runMethod cx m.body a (some b) = .ok (v, l) := by
+  obtain ⟨m, hm, extra, _, hrun⟩ := C04_validated c raw hraw inp h dw hdw t ht htr hns cx hti a b ha hb hca hcb
+  exact ⟨m, hm, _, _, hrun⟩
 
 end DW
